@@ -321,3 +321,32 @@ func BaselineVarName(name string, fn *ssa.Function) string {
 	}
 	return name
 }
+
+// InlinedOwnerOf: fn is not in an owner table, but on the tree the rules were confirmed on (the baseline inventory) it
+// CALLED an owner that no longer exists as a function: the owner's body was inlined into its caller. Returns that owner's
+// name (as owner tables spell it). Like a re-binding this only answers "which function is meant"; the site is then an
+// owner's site and every other rule about it is decided on the current source.
+func (p *Prog) InlinedOwnerOf(fn *ssa.Function, owners map[string]string) (string, bool) {
+	if !baselineInUse || fn == nil {
+		return "", false
+	}
+	k, ok := symKey(Outer(fn))
+	if !ok {
+		return "", false
+	}
+	bf, ok := baseline[k]
+	if !ok {
+		return "", false
+	}
+	exists := map[string]bool{}
+	for _, f := range p.Funcs {
+		exists[p.FuncName(f)] = true
+	}
+	for _, c := range bf.Callees {
+		name := strings.ReplaceAll(c, ModPath+"/", "")
+		if _, isOwner := owners[name]; isOwner && !exists[name] {
+			return name, true
+		}
+	}
+	return "", false
+}
